@@ -299,9 +299,22 @@ def point(spc, xd):
     return relayout(x, xd.get('order', 'C'))
 
 
+# element-valued parameters handed to the operator under construction (data
+# terms g, translations y, linear terms u, priors, element-valued steps,
+# bounds, multiplicands ...): every `vec` lands here, derived parameters are
+# registered with `param`; `build_op` attaches the list to the operator
+_PARAMS = []
+
+
+def param(elem):
+    """Register ``elem`` as a parameter object of the operator being built."""
+    _PARAMS.append(elem)
+    return elem
+
+
 def vec(spc, seed, dom='mod'):
     """Auxiliary element (multiplicand, data term, ...) from a seed."""
-    return flat.unflat(_seeded(dom, seed, flat.rdim(spc)), spc)
+    return param(flat.unflat(_seeded(dom, seed, flat.rdim(spc)), spc))
 
 
 def is_intspace(spc):
@@ -323,7 +336,13 @@ def build_op(desc):
         raise HarnessError('unknown zoo entry {!r}'.format(desc.get('entry')))
     o = Src(None, desc['opts'])
     thunk = e.func(o)
-    return thunk(), e
+    del _PARAMS[:]
+    op = thunk()
+    try:
+        op._verif_params = list(_PARAMS)
+    except AttributeError:
+        pass
+    return op, e
 
 
 @st.composite
@@ -2101,9 +2120,9 @@ def _f_box(o):
         lower = {'none': None, 'scalar': lo}.get(lk, 0)
         upper = {'none': None, 'scalar': hi}.get(uk, 0)
         if lk == 'elem':
-            lower = vec(sp, seed, 'prob') - 1.0
+            lower = param(vec(sp, seed, 'prob') - 1.0)
         if uk == 'elem':
-            upper = vec(sp, seed + 1, 'prob') + 0.5
+            upper = param(vec(sp, seed + 1, 'prob') + 0.5)
         return S.IndicatorBox(sp, lower, upper)
     return mk
 
@@ -2521,9 +2540,9 @@ def _prox_box(o):
         lower = {'none': None, 'scalar': lo}.get(lk, 0)
         upper = {'none': None, 'scalar': hi}.get(uk, 0)
         if lk == 'elem':
-            lower = vec(sp, seed, 'prob') - 1.0
+            lower = param(vec(sp, seed, 'prob') - 1.0)
         if uk == 'elem':
-            upper = vec(sp, seed + 1, 'prob') + 0.5
+            upper = param(vec(sp, seed + 1, 'prob') + 0.5)
         return PO.proximal_box_constraint(sp, lower, upper)(1.0)
     return mk
 
@@ -2917,5 +2936,113 @@ def _expr_view(o):
             'flvm': lambda: v_dom * f(),
         }[k]()
         op._verif_view_operand = V
+        return op
+    return mk
+
+
+# --------------------------------------------------------------------------
+# operands that implement only the out-of-place `_call(self, x)`
+
+class UserOopOperator(Operator):
+    """User-style operator written with ``_call(self, x)`` only (the in-place
+    call goes through the default bridging of `Operator`)."""
+
+    def __init__(self, spc, shift, scale):
+        super(UserOopOperator, self).__init__(spc, spc, linear=False)
+        self.shift, self.scale = shift, scale
+
+    def _call(self, x):
+        return self.scale * x + self.shift
+
+
+@entry('user.oop-only', 'solverblock', classes=['UserOopOperator'], c10=True)
+def _user_oop(o):
+    sd = anyspace(o, 'space', kinds=('rn', 'discr'))
+    seed = o.seed()
+    s = o.scalar('s', nonzero=True)
+    o.dom = 'mod'
+
+    def mk():
+        sp = B(sd)
+        return UserOopOperator(sp, vec(sp, seed), s)
+    return mk
+
+
+_OOP_POOL = []
+
+
+def get_oop_pool():
+    """Names of catalogue entries (domain == range, not field-valued) whose
+    operator class implements only ``_call(self, x)``; found once per process
+    by probing ``_call_has_out`` over the catalogue (2 seeded draws each)."""
+    if _OOP_POOL:
+        return _OOP_POOL[0]
+    names = [n for n, e in ENTRIES.items()
+             if e.family in ('gradient', 'funcprox', 'prox', 'default',
+                             'derivative', 'tensor', 'solverblock') and
+             not n.startswith(('alias.', 'elem.'))]
+    pool = []
+    with np.errstate(all='ignore'):
+        for name in names:
+            for d in sweep(lambda n: entry_descs(n), [name], per_entry=2,
+                           seed=778):
+                try:
+                    op, _ = build_op({'entry': d['entry'], 'opts': d['opts']})
+                except Exception:  # noqa
+                    continue
+                if op.domain == op.range and not op.is_functional and \
+                        not isinstance(op.domain, Field) and \
+                        not type(op)._call_has_out:
+                    pool.append(name)
+                    break
+    _OOP_POOL.append(pool)
+    return pool
+
+
+OOP_EXPR_KINDS = ['sum-left', 'sum-right', 'sum-self', 'comp-inner',
+                  'comp-outer', 'lscal', 'rscal', 'lvec', 'rvec', 'vecsum',
+                  'pwprod']
+
+
+@entry('alias.expr.oop-operand', 'solverblock', c03=False, c10=True,
+       weight=8,
+       classes=['OperatorSum', 'OperatorComp', 'OperatorLeftScalarMult',
+                'OperatorRightScalarMult', 'OperatorLeftVectorMult',
+                'OperatorRightVectorMult', 'OperatorVectorSum',
+                'OperatorPointwiseProduct'])
+def _alias_expr_oop(o):
+    """Operator-arithmetic wrappers with an operand that only implements the
+    out-of-place call (functional gradients, NuclearNorm proximal, user-style
+    operators) in every position."""
+    name = o.pick('operand', (get_oop_pool() or ['user.oop-only'])
+                  if o.draw is not None else ())
+    c = o.child('v')
+    vthunk = ENTRIES[name].func(c)
+    k = o.pick('kind', OOP_EXPR_KINDS)
+    s = abs(o.scalar('s', nonzero=True))
+    s = s if s <= 1 else 1 / s
+    seed = o.seed()
+    o.dom = c.dom
+    o.opts['variant'] = k
+
+    def mk():
+        V = vthunk()
+        sp = V.domain
+        if V.domain != V.range or isinstance(sp, Field):
+            raise NotImplementedError('operand is not an endomorphism')
+        # partners keep points inside the documented domain of V (positive
+        # factors <= 1: positive stays positive, (0, 1) stays in (0, 1))
+        E = odl.ScalingOperator(sp, s)
+        w = vec(sp, seed, 'prob')
+        op = {
+            'sum-left': lambda: V + E, 'sum-right': lambda: E + V,
+            'sum-self': lambda: V + V,
+            'comp-inner': lambda: E * V, 'comp-outer': lambda: V * E,
+            'lscal': lambda: s * V, 'rscal': lambda: V * s,
+            'lvec': lambda: w * V, 'rvec': lambda: V * w,
+            'vecsum': lambda: V + w,
+            'pwprod': lambda: odl.OperatorPointwiseProduct(V, E),
+        }[k]()
+        op._verif_oop_operand = V
         return op
     return mk
